@@ -21,12 +21,20 @@ Exponent == [rate |-> -1, increment |-> 1, walk |-> 1, rate_irregular |-> -1, in
 Lo == [rate |-> 90, increment |-> 90, walk |-> 75, walk_growth |-> 70, rate_irregular |-> 90, increment_irregular |-> 90]
 Hi == [rate |-> 110, increment |-> 110, walk |-> 125, walk_growth |-> 130, rate_irregular |-> 110, increment_irregular |-> 110]
 
+\* laws that hold exactly (the harness reports a boolean): the random terms depend on the sampling INTERVALS only, so
+\*   walk_starts_at_first_sample  the bias at the first sample is the initial bias whatever the absolute time of that sample
+\*                                (variance q^2 (t - t_first), not q^2 t)
+\*   shift_invariant_*            equal seeds and a shifted time axis (by a power of two: intervals bit-identical) give bit-identical output
+MustHold == {"walk_starts_at_first_sample", "shift_invariant_rate", "shift_invariant_increment", "finite_for_negative_time"}
+
 VARIABLE k
 Init == k = 1
 Next == /\ k <= Len(Obs)
         /\ PrintT(<<"NOISE", k, Obs[k].kind,
-                    (Obs[k].kind \in DOMAIN Exponent) => (Obs[k].exponent = Exponent[Obs[k].kind]),
-                    Obs[k].percent >= Lo[Obs[k].kind] /\ Obs[k].percent <= Hi[Obs[k].kind]>>)
+                    IF Obs[k].kind \in MustHold THEN Obs[k].holds
+                    ELSE (Obs[k].kind \in DOMAIN Exponent) => (Obs[k].exponent = Exponent[Obs[k].kind]),
+                    IF Obs[k].kind \in MustHold THEN TRUE
+                    ELSE Obs[k].percent >= Lo[Obs[k].kind] /\ Obs[k].percent <= Hi[Obs[k].kind]>>)
         /\ k' = k + 1
 Spec == Init /\ [][Next]_k
 =============================================================================
